@@ -8,6 +8,8 @@ COLUMN appends, CREATE/DROP INDEX, rebuild = desired definition + all desired in
 
 Proved (tables with any number of columns and indexes):
 * `second_plan_empty` — after executing the planned program the diff to the desired table is empty;
+* `apply_idempotent`, `apply_n_times` — a second (third, ...) apply of the same desired table executes nothing:
+  the table stays exactly as the first apply left it;
 * `converges` — the resulting table has the desired keys/constraints/options token, exactly the
   desired columns and exactly the desired indexes (as sets; in-place ADD COLUMN appends, so the storage
   order of columns may differ from the declaration, which the differ ignores);
@@ -206,5 +208,21 @@ example : applyPlan (fun _ => true) ⟨[1, 2], 0, [10, 11]⟩ ⟨[1, 3, 2], 0, [
 /-- a changed constraint token forces the rebuild: the result is the desired table literally. -/
 example : applyPlan (fun _ => true) ⟨[1, 2], 0, [10]⟩ ⟨[1, 3, 2], 7, [10]⟩ = ⟨[1, 3, 2], 7, [10]⟩ := by decide
 example : diffPT (applyPlan (fun c => c != 3) ⟨[1, 2], 0, [10, 11]⟩ ⟨[1, 3, 2], 0, [11, 12]⟩) ⟨[1, 3, 2], 0, [11, 12]⟩ = [] := by decide
+
+/-- **apply_idempotent**: applying the same desired table a second time executes nothing — the table
+stays exactly as the first apply left it (tables with any number of columns and indexes). -/
+theorem apply_idempotent (simple : Nat → Bool) (a b : PT) :
+    applyPlan simple (applyPlan simple a b) b = applyPlan simple a b := by
+  have h := second_plan_empty simple a b
+  generalize applyPlan simple a b = m at h ⊢
+  unfold applyPlan
+  simp [h]
+
+/-- … and so does every later apply. -/
+theorem apply_n_times (simple : Nat → Bool) (a b : PT) (n : Nat) :
+    Nat.repeat (fun t => applyPlan simple t b) (n + 1) a = applyPlan simple a b := by
+  induction n with
+  | zero => rfl
+  | succ n ih => simp only [Nat.repeat] at ih ⊢; rw [ih, apply_idempotent]
 
 end Props.C01
